@@ -4,7 +4,7 @@
    The wrapped methods themselves, np.mean over several points, np.maximum and the Gaussian / edge
    extrapolation are arguments of the models (C06-C09 / library). *)
 From Coq Require Import ZArith List Bool Lia String QArith PrimFloat.
-From PB Require Import lib.PySlice lib.Arr lib.Loop lib.LoopProofs C17.Model C17.Float C17.Proofs C17.Custom.
+From PB Require Import lib.PySlice lib.Arr lib.Loop lib.LoopProofs C17.Model C17.Float C17.Proofs C17.Custom C17.Grow C17.Smooth.
 Import ListNotations.
 Open Scope Z_scope.
 
@@ -253,3 +253,101 @@ Theorem C17_optimum_nonfinite : forall (E : Type) (lt : E -> E -> bool) errs,
   argmin_first lt (fun _ => false) errs = None.
 Proof. intros E. exact argmin_never_finite. Qed.
 Print Assumptions C17_optimum_nonfinite.
+
+(* ================================================================ growth *)
+(* ---------------------------------------------------------------- 2-D adaptive_minmax *)
+(* For every (M, N), every pair of sort orders in any of the four Baseline2D._sort_order layouts
+   (none, x only, z only, both; q = inverse of p, the contract of utils._inverted_sort) and every
+   count 0 <= c0, 0 <= c1 <= M, 0 <= c2, 0 <= c3 <= N (= ceil(M*f0), ceil(M*f1), ceil(N*f2),
+   ceil(N*f3); the guard 0 <= f <= 1 gives the upper bounds): the cell at input position (i, j) is
+   constrained exactly when the RANK of x_i is among the first c0 / last c1 rows or the rank of z_j
+   among the first c2 / last c3 columns; where regions overlap the later write wins (last columns >
+   last rows > first columns > first rows); the reported plain weights are the caller's. *)
+Theorem C17_minmax2d_edges : forall (A : Type) (m n c0 c1 c2 c3 : Z) (w0 w1 w2 w3 : A)
+    (ox oz : option ((Z -> Z) * (Z -> Z))) (w : Z -> Z -> A) (i j : Z),
+  0 <= c0 -> 0 <= c1 <= m -> 0 <= c2 -> 0 <= c3 <= n ->
+  inv_ok m ox -> inv_ok n oz -> 0 <= i < m -> 0 <= j < n ->
+  fst (minmax2d_weights m n ox oz c0 c1 c2 c3 w0 w1 w2 w3 w) i j = w i j /\
+  snd (minmax2d_weights m n ox oz c0 c1 c2 c3 w0 w1 w2 w3 w) i j =
+    let r := perm_of ox true i in let c := perm_of oz true j in
+    if n - c3 <=? c then w3 else if m - c1 <=? r then w1 else if c <? c2 then w2 else if r <? c0 then w0 else w i j.
+Proof.
+  intros A m n c0 c1 c2 c3 w0 w1 w2 w3 ox oz w i j H0 H1 H2 H3 Hx Hz Hi Hj.
+  exact (minmax2d_edges m n c0 c1 c2 c3 w0 w1 w2 w3 H0 H1 H2 H3 ox oz w i j Hx Hz Hi Hj).
+Qed.
+Print Assumptions C17_minmax2d_edges.
+
+Example C17_minmax2d_nonvacuous :
+  (* 3 x 4, x order [2,0,1] (inverse [1,2,0]), z sorted; one first row, one last column *)
+  to_list2 3 4 (snd (minmax2d_weights 3 4 (Some (of_list 0 [2; 0; 1], of_list 0 [1; 2; 0])) None 1 0 0 1 5 6 7 8 (fun _ _ => 1)))
+  = [1; 1; 1; 8;  1; 1; 1; 8;  5; 5; 5; 8] /\ inv_ok 3 (Some (of_list 0 [2; 0; 1], of_list 0 [1; 2; 0])).
+Proof.
+  split; [vm_compute; reflexivity|]. intros j Hj.
+  assert (j = 0 \/ j = 1 \/ j = 2) as [-> | [-> | ->]] by lia; vm_compute; repeat split; discriminate.
+Qed.
+
+(* ---------------------------------------------------------------- nested brpls loops in collab_pls *)
+(* the 2-level skeleton of brpls / pspline_brpls with the tolerances forced by collab_pls: when the
+   first inner difference is below tol and the first outer difference below tol_2 (under inf:
+   neither is NaN / +inf), or the very first pass exits early, there is exactly ONE solve, with the
+   supplied (average) weights, and those are the weights reported -- for every max_iter, max_iter_2.
+   The tie of the skeleton to the code is the solve count and the recomposition oracle (no per-pass
+   trace validation of the nested loops). *)
+Theorem C17_collab_brpls_single_pass :
+  forall (W B Beta D D2 : Type) (solve : W -> B) (reweight : B -> Beta -> W * bool) (diff : B -> B -> D)
+         (below : D -> bool) (diff2 : Beta -> W -> D2) (below2 below2_inf : D2 -> bool) (next_beta : W -> Beta)
+         (max_iter max_iter_2 : nat) (beta0 : Beta) (wavg : W) (y : B),
+  let nb := solve wavg in
+  let nw := fst (reweight nb beta0) in
+  let early := snd (reweight nb beta0) in
+  (if early then below2_inf (diff2 beta0 nw) else below (diff y nb) && below2 (diff2 beta0 nw)) = true ->
+  brpls_loops W B Beta D D2 solve reweight diff below diff2 below2 below2_inf next_beta
+              max_iter max_iter_2 beta0 wavg y = (solve wavg, wavg, 1%nat).
+Proof. exact brpls_single_pass. Qed.
+Print Assumptions C17_collab_brpls_single_pass.
+
+Example C17_brpls_nonvacuous :
+  (* without the forced tolerances the same skeleton iterates: 2 outer x 2 inner passes here *)
+  brpls_loops nat nat nat nat nat (fun w => w) (fun b beta => (S b, false)) (fun b nb => nb)
+              (fun d => Nat.ltb d 0) (fun beta w => w) (fun d => Nat.ltb d 0) (fun _ => true) (fun w => w)
+              1 1 0%nat 0%nat 0%nat = (3%nat, 3%nat, 4%nat) /\
+  brpls_loops nat nat nat nat nat (fun w => w) (fun b beta => (S b, false)) (fun b nb => nb)
+              (fun d => true) (fun beta w => w) (fun d => true) (fun _ => true) (fun w => w)
+              1 1 0%nat 0%nat 0%nat = (0%nat, 0%nat, 1%nat).
+Proof. vm_compute. split; reflexivity. Qed.
+
+(* ---------------------------------------------------------------- the parameter grid and the optimum on it *)
+(* lam sweep = 10.0 ** np.linspace(min, max, ceil((max - min) / step)): never empty; with two or
+   more values the last exponent is EXACTLY max_value (for every number instance, binary64 included) *)
+Theorem C17_extended_lam_grid : forall (K : NumI) (lo hi step : T K) (g : list (T K)),
+  lam_grid K lo hi step = Some g -> g <> [] /\ (2 <= zlen g -> last g lo = hi).
+Proof. exact lam_grid_shape. Qed.
+Print Assumptions C17_extended_lam_grid.
+
+(* the reported optimal parameter is the grid value at the first minimiser of the errors *)
+Theorem C17_optimum_on_grid : forall (P : Type) (grid : list P) (errs : list Z) (p : P),
+  selected_param grid errs = Some p ->
+  exists b e, nth_error grid b = Some p /\ (b < List.length errs)%nat /\ nth b errs 0 = e /\
+              (forall x, In x errs -> e <= x) /\ (forall k, (k < b)%nat -> e < nth k errs 0).
+Proof. intros P. exact selected_param_spec. Qed.
+Print Assumptions C17_optimum_on_grid.
+
+Theorem C17_optimum_on_grid_total : forall (P : Type) (grid : list P) (errs : list Z),
+  List.length grid = List.length errs -> errs <> [] -> selected_param grid errs <> None.
+Proof. intros P. exact selected_param_total. Qed.
+Print Assumptions C17_optimum_on_grid_total.
+
+Example C17_grid_nonvacuous :
+  poly_sweep 5 1 2 = [5; 3; 1] /\ poly_sweep 1 4 0 = [1] /\ poly_sweep 0 5 3 = [0; 3; 6] /\
+  selected_param (poly_sweep 5 1 2) [9; 4; 4] = Some 3.
+Proof. vm_compute. repeat split. Qed.
+
+(* ---------------------------------------------------------------- custom_bc smoothing step *)
+(* `lam` given: the system handed to the banded solver IS (I + lam D'D) z = interpolated baseline,
+   for every N > d >= 1, lam > 0 and every solver setting (assembly only; by C06's theorems) *)
+Theorem C17_custom_smooth_system : forall (hp : bool) (bs : Z) (N : nat) (lam : Z) (d : nat) (base : Z -> Z),
+  (1 <= d < N)%nat -> 0 < lam ->
+  exists k, custom_smooth hp bs N lam d base = Some [k] /\
+            PB.C06.Proofs.sys_ok N (fun i j => (if i =? j then 1 else 0) + lam * PB.C11.DtD.DtD d N i j) base k.
+Proof. exact custom_smooth_system. Qed.
+Print Assumptions C17_custom_smooth_system.
